@@ -46,9 +46,14 @@ SITES = {
         ["Load:enqueuePos", "Load:seq", "Store:seq", "CAS:enqueuePos", "Load:enqueuePos"],
     "actor/non_blocking_bounded_mailbox.go:NonBlockingBoundedMailbox.Dequeue":
         ["Load:dequeuePos", "Load:seq", "Store:seq", "CAS:dequeuePos", "Load:dequeuePos"],
-    "actor/unbounded_fair_mailbox.go:UnboundedFairMailbox.Enqueue": ["Add:length", "CAS:active", "Add:pending"],
+    "actor/unbounded_fair_mailbox.go:UnboundedFairMailbox.Enqueue": ["MapLoad:senders", "Add:length", "CAS:active", "Add:pending"],
     "actor/unbounded_fair_mailbox.go:UnboundedFairMailbox.Dequeue": ["Store:active", "Load:length", "Load:pending", "CAS:active", "Add:length", "Add:pending"],
+    "actor/unbounded_fair_mailbox.go:UnboundedFairMailbox.finalizeSender": ["Store:pending", "Store:active", "Load:pending", "CAS:active"],
+    "actor/unbounded_fair_mailbox.go:activeSenders.enqueue": ["Store:value", "Store:next", "Swap:tail", "Store:next"],
+    "actor/unbounded_fair_mailbox.go:activeSenders.dequeue": ["Load:head", "Load:next", "Store:head", "Load:value", "Store:next", "Store:value"],
 }
+# sync.Map operations of the fair mailbox (the senders map decides which sub-queue a sender owns) are points too
+INSTRUMENT_ARGS = {"actor/unbounded_fair_mailbox.go": ["-syncmap"]}
 FACTS = [
     {"file": "actor/pid.go", "suffixes": "pid.Tell", "expect": {"PID.BatchTell": ["pid.Tell"]}},
     {"file": "actor/stash.go", "suffixes": "pid.doReceive,box.Enqueue,box.Dequeue,box.IsEmpty",
@@ -101,6 +106,29 @@ def mb_case(rng, kind, boundaries=1):
     return cfg + " | " + " ; ".join(" ".join(p) for p in progs) + " | " + " ".join(map(str, sched))
 
 
+def preempt_cases(kind, cap=""):
+    """the consumer is parked j atomic steps into a Dequeue (every point of Dequeue / finalizeSender / the map
+    operations in turn) while ONE sender completes a burst of whole Enqueues, then the consumer resumes and the
+    sender goes on: `0*` = the sender finishes one Enqueue, `1` = one atomic step of the consumer"""
+    out = []
+    for a, b in ((1, 2), (1, 1), (2, 2), (1, 3)):
+        for d0 in (0, 1):
+            if d0 >= a + 1:
+                continue
+            for j in range(1, 27):
+                sched = ["0*"] * a + ["1*"] * d0 + ["1"] * j + ["0*"] * b + ["1*"] + ["0*"] * 2
+                progs = "e " * (a + b + 2) + "; " + "d " * (a + b + 4)
+                out.append(f"mb {kind}{cap} | {progs.strip()} | " + " ".join(sched))
+    return out
+
+
+def pct_case(rng, kind, cap=""):
+    np = rng.randint(1, 3)
+    progs = [["e"] * rng.randint(2, 5) for _ in range(np)] + [["d"] * rng.randint(3, 12)]
+    return (f"mb {kind}{cap} | " + " ; ".join(" ".join(p) for p in progs) +
+            f" | pct {rng.randrange(1 << 30)} {rng.randint(1, 4)} {rng.randint(4, 40)}")
+
+
 def script_case(rng, kind):
     cfg = "script " + kind + (" 512" if kind in ("ring", "bounded") else "")
     toks = ["via=" + rng.choice(["api", "pid"])]
@@ -139,6 +167,16 @@ KINDS = ["unbounded", "segmented", "ring", "fair", "bounded"]
 def gen_cases(rng, tier):
     cases = []
     n_mb, n_sc, n_co = (50, 8, 3) if tier == "quick" else (700, 60, 12)
+    # consumer preempted at every point of its Dequeue while one sender bursts: exhaustive over the preemption
+    # point for the fair mailbox (whose per-sender sub-queue bookkeeping lives in Dequeue/finalizeSender), sampled for the others
+    pre = preempt_cases("fair")
+    cases += pre if tier != "quick" else pre[:26 * 2] + rng.sample(pre[26 * 2:], 30)
+    for kind, cap in (("unbounded", ""), ("segmented", ""), ("ring", " 8")):
+        allp = preempt_cases(kind, cap)
+        cases += rng.sample(allp, 12 if tier == "quick" else 80)
+    for kind in KINDS:
+        for _ in range(8 if tier == "quick" else 120):
+            cases.append(pct_case(rng, kind, " 8" if kind in ("ring", "bounded") else ""))
     for kind in KINDS:
         for _ in range(n_mb):
             cases.append(mb_case(rng, kind, 1 if tier == "quick" else 3))
@@ -150,7 +188,11 @@ def gen_cases(rng, tier):
 
 
 def search_cases(rng, tier):
-    cases = []
+    cases = preempt_cases("fair")
+    for kind, cap in (("unbounded", ""), ("segmented", ""), ("ring", " 8")):
+        cases += preempt_cases(kind, cap)
+    for kind in KINDS:
+        cases += [pct_case(rng, kind, " 8" if kind in ("ring", "bounded") else "") for _ in range(150)]
     for kind in KINDS:
         cases += [mb_case(rng, kind, 3) for _ in range(400)]
         cases += [script_case(rng, kind) for _ in range(40)]
@@ -285,7 +327,7 @@ def shrink(case):
     parts = case.split("|")
     if len(parts) == 3:
         sched = parts[2].split()
-        if not sched:
+        if not sched or sched[0] == "pct":
             return
         mk = lambda sc: parts[0] + "|" + parts[1] + "| " + " ".join(sc)
         yield mk([])
